@@ -214,6 +214,8 @@ func (g *gen) migrateAttempt() {
 		op.Sig = "garbage"
 	case 4:
 		op.Sig, op.Signer, op.SF, op.ST = "swap", b, a, g.pickTgt() // target signs for another target
+	case 14:
+		op.Sig, op.SF, op.ST = "swap", b, a // target signs the pair the wrong way round
 	case 5:
 		op.A = val0 + r.Intn(3) // a validator operator as source
 		op.SF = op.A
@@ -427,7 +429,7 @@ func runWitnesses(seed int64, cw *CaseWriter, rep *lib.Report) {
 	}
 	h.Exec(Op{Kind: "block", Dt: 14 * day})
 	h.Exec(Op{Kind: "block", Dt: 5 * sec})
-	rep.Case("witness-gov", true)
+	finish(h, rep, "witness-gov")
 
 	// 2. one delegation: the by-validator index keeps the source
 	h = NewHist(seed*1000+901, cw, rep)
@@ -443,7 +445,7 @@ func runWitnesses(seed int64, cw *CaseWriter, rep *lib.Report) {
 	h.Exec(Op{Kind: "undelegate", A: tgt0, V: val0, Amt: fx(900), Mode: "must"})
 	h.Exec(Op{Kind: "block", Dt: 21 * day})
 	h.Exec(Op{Kind: "block", Dt: 5 * sec})
-	rep.Case("witness-index", true)
+	finish(h, rep, "witness-index")
 }
 
 
@@ -508,6 +510,7 @@ func runRuleScenarios(seed int64, cw *CaseWriter, rep *lib.Report, r *lib.Rand) 
 	h.Exec(Op{Kind: "migrate", A: 0, B: tgt0, Mode: "tx", Sig: "other", Signer: tgt0 + 1, SF: 0, ST: tgt0})
 	h.Exec(Op{Kind: "migrate", A: 0, B: tgt0, Mode: "tx", Sig: "swap", Signer: tgt0, SF: 1, ST: tgt0})
 	h.Exec(Op{Kind: "migrate", A: 0, B: tgt0, Mode: "tx", Sig: "swap", Signer: tgt0, SF: 0, ST: tgt0 + 1})
+	h.Exec(Op{Kind: "migrate", A: 0, B: tgt0, Mode: "tx", Sig: "swap", Signer: tgt0, SF: tgt0, ST: 0}) // (target, source)
 	h.Exec(Op{Kind: "migrate", A: 0, B: tgt0, Mode: "tx", Sig: "empty"})
 	h.Exec(Op{Kind: "migrate", A: 0, B: tgt0, Mode: "tx", Sig: "garbage"})
 	h.Exec(Op{Kind: "migrate", A: 0, B: tgt0, Mode: "tx", Sig: "other", Signer: 1, SF: 0, ST: tgt0}) // the source's colleague signs
@@ -527,7 +530,7 @@ func runRuleScenarios(seed int64, cw *CaseWriter, rep *lib.Report, r *lib.Rand) 
 	h.Exec(Op{Kind: "slash", V: v0, Dt: 1})
 	h.Exec(Op{Kind: "block", Dt: 21 * day})
 	h.Exec(Op{Kind: "block", Dt: 5 * sec})
-	rep.Case("scenario-rules", true)
+	finish(h, rep, "scenario-rules")
 }
 
 // runGovWindow: for each role x side x queue, a proposal whose end time falls inside / at the edges of /
@@ -602,6 +605,13 @@ func runGovWindow(seed int64, cw *CaseWriter, rep *lib.Report, r *lib.Rand) {
 		h.Exec(Op{Kind: "block", Dt: 15 * day})
 		h.Exec(Op{Kind: "block", Dt: 5 * sec})
 		rep.Count(fmt.Sprintf("gov-window:%s:%s:active=%v:offset=%d", c.role, c.side, c.act, off))
-		rep.Case(fmt.Sprintf("scenario-govwindow-%d", ci), true)
+		finish(h, rep, fmt.Sprintf("scenario-govwindow-%d", ci))
+	}
+}
+
+func finish(h *Hist, rep *lib.Report, key string) {
+	rep.Case(key, true)
+	for t := range h.tags {
+		rep.Count("history-with:" + t)
 	}
 }
